@@ -1,0 +1,12 @@
+//go:build verif
+
+// Contracts for package embedding, checked by /verif/govc (comment-only file; compiled only
+// with the build tag "verif", which no build of the application uses).
+package embedding
+
+//@ func (*Index).EmbedQuery
+//@   modifies nothing
+//@   ensures[C19.embed-fresh] fresh(result)
+//@ func (*Index).SemanticScores
+//@   modifies nothing
+//@   ensures[C19.scores-fresh] fresh(result)
